@@ -336,7 +336,7 @@ def run(tier, seed, only=None):
                "coordinates exact / perturbed <= 0.2 m / omitted for a resolvable subset, heights of instrument and "
                "target; + monotonicity (adding consistent observations). class = (network kind, variant, features, "
                "algorithm)")
-    n = tier_n(tier, 60, 1500)
+    n = tier_n(tier, 180, 1500)
     algs = netlevel.ALGS
     jobs = []
     for i in range(n):
@@ -350,7 +350,7 @@ def run(tier, seed, only=None):
             for alg in alg_list:
                 jobs.append((i, vname, net, feats, alg))
     # documented strategies for approximate coordinates, one at a time
-    for i in range(tier_n(tier, 6, 150)):
+    for i in range(tier_n(tier, 18, 150)):
         if only is not None:
             break
         rng = np.random.default_rng([seed, i, 6161])
